@@ -160,7 +160,7 @@ def quick_busy(conn):
 
 
 # ----------------------------------------------------------------------------- pools
-SYS = ["a", "b", "", "A", "é", "a b", "ab"]
+SYS = ["a", "b", "", "A", "é", "a b", "ab", "a?x", "a#b", "a%b", "a/b", "a+b", "node1", "node1?rack=7"]
 KEYS = ["k", "", "flag", "k:x", "K", "ü"]
 VALUES = [None, True, False, 0, 1, -1, 1.0, -0.0, 0.1, 2 ** 63, 2 ** 64 + 1, -(10 ** 30), 1e308, float("inf"),
           float("nan"), "", "a", "1", "é€\U0001F600", "a\x00b", "\ud800", [], {}, [1, [2, {"k": None}]],
@@ -171,7 +171,15 @@ VALUES = [None, True, False, 0, 1, -1, 1.0, -0.0, 0.1, 2 ** 63, 2 ** 64 + 1, -(1
 PREFIXES = ["", "pre", "p:q"]
 LOOKUP_KEYS = ["k", "p:q:k", "pre:k", "p:qk", "p:q:", "p:q", "pre:", "flag", "pre:flag", "p:q:flag", "p:q:k:x", ":k", "prek"]
 URIS = ["/upd/a", "/upd/b?x=1", "/upd/", "/upd", "/other/a", "/upd/a%20b", "/upd/%41", "/upd/a%00", "/upd/%C3%A9",
-        "/upd/a/b", "/upd/a?y=%00", "/updx/a", "/upd//", "/UPD/a"]
+        "/upd/a/b", "/upd/a?y=%00", "/updx/a", "/upd//", "/UPD/a",
+        # system ids with characters that must stay percent-encoded in a path, with and without a real query string
+        "/upd/a%3Fx", "/upd/a%3Fx?y=1", "/upd/node1%3Frack%3D7", "/upd/a%23b", "/upd/a%25b", "/upd/a%252Fb", "/upd/a%2Fb",
+        "/upd/a+b", "/upd/a%20b?q=a%3Fb", "/upd/%C3%A9%3F", "/upd/a?x%3Fy", "/upd/a%3F", "/upd/a%3F%3F?z"]
+# (uri, the system it addresses, the system a decode-before-cut / cut-at-# / plus-as-blank reading would hit)
+SPECIAL_URIS = [("/upd/a%3Fx", "a?x", "a"), ("/upd/a%3Fx?y=1", "a?x", "a"), ("/upd/node1%3Frack%3D7", "node1?rack=7", "node1"),
+                ("/upd/a%23b", "a#b", "a"), ("/upd/a%25b", "a%b", "a"), ("/upd/a%252Fb", "a%2Fb", "a/b"), ("/upd/a%2Fb", "a/b", "a"),
+                ("/upd/a+b", "a+b", "a b"), ("/upd/a%20b?q=a%3Fb", "a b", "a"), ("/upd/%C3%A9%3F", "\u00e9?", "\u00e9"),
+                ("/upd/a?x%3Fy", "a", "a?y"), ("/upd/a%3F", "a?", "a"), ("/upd/%C3%A9", "\u00e9", "e")]
 BODIES = [b'"\xed\xa0\x80"', b'{"a": [1, 2.5, null]}', b'"x"', b"1e999", b"NaN", b"[1,", b"\xff", b"", b'{"a":1,"a":2}', b"12345678901234567890123",
           b"hello", b"\xc3\xa9", b"\xff\xfe", b"true", b" 1 ", b'"\\ud800"', b"1.0", b"-0.0", b"[1, 2] x"]
 CLENS = ["=", "=", "=", None, "x", "0", "3", "-1", " 5 ", "1_0", "99"]
@@ -298,6 +306,27 @@ class C15(Check):
             steps += rng.sample(tail, rng.randrange(2, 6))
             case["steps"] = steps[:8]
             yield case
+        # directed: every handler action addressed to a system id that needs percent-encoding; the addressed system
+        # and its look-alike both hold data before the request, the snapshots show which rows changed
+        for rep in range(1 if tier == "quick" else 6):
+            for h in hp:
+                for (uri, target, other) in SPECIAL_URIS:
+                    if tier == "quick" and rng.random() < 0.5:
+                        continue
+                    case = {"stores": [True, True, False], "sources": [(rng.choice(PREFIXES), True), ("pre", True)],
+                            "handlers": [h, rng.choice(hp)]}
+                    key = h["key"] if h["key"] is not None else "k"
+                    steps = [("store", rng.randrange(3), "set", target, key, rng.choice([0, "old", [1]])),
+                             ("store", rng.randrange(3), "set", other, key, rng.choice([0, "old", [1]])),
+                             ("store", rng.randrange(3), "set", target, "keep", 1),
+                             ("store", rng.randrange(3), "set", other, "keep", 2)]
+                    rng.shuffle(steps)
+                    body = rng.choice([b'"new"', b"[2]", b"text"])
+                    steps.append(("handler", 0, {"method": "POST", "uri": uri, "ip": "192.0.2.1", "clen": "=", "body": body}))
+                    steps.append(("store", rng.randrange(3), "getdata", target))
+                    steps.append(("store", rng.randrange(3), "getdata", other))
+                    case["steps"] = steps
+                    yield case
 
     # ---- the real code
     def impl(self, c):
